@@ -38,13 +38,25 @@ pub fn encode(s: &str) -> String {
     out
 }
 
+/// the text of a value, formatted here (not by the library): typed values in the canonical AUTOSAR lexical form
+fn val_text(cd: &CharacterData) -> String {
+    match cd {
+        CharacterData::Float(f) if f.is_nan() => "NaN".to_string(),
+        CharacterData::Float(f) if f.is_infinite() => if *f < 0.0 { "-INF".to_string() } else { "INF".to_string() },
+        CharacterData::Float(f) => format!("{f}"),
+        CharacterData::UnsignedInteger(u) => format!("{u}"),
+        CharacterData::Enum(it) => it.to_str().to_string(),
+        CharacterData::String(s) => s.clone(),
+    }
+}
+
 pub fn proj(e: &Element) -> Value {
     // built with owned maps: the json! macro would deep-copy the nested value at every level (quadratic in the depth)
     let is_root = e.element_name() == ElementName::Autosar;
     let attrs: Vec<Value> = e
         .attributes()
         .filter(|a| !(is_root && a.attrname == AttributeName::xsiSchemalocation))
-        .map(|a| json!({"n": a.attrname.to_str(), "v": encode(&a.content.to_string())}))
+        .map(|a| json!({"n": a.attrname.to_str(), "v": encode(&val_text(&a.content))}))
         .collect();
     let mut items: Vec<Value> = vec![];
     for c in e.content() {
@@ -56,7 +68,7 @@ pub fn proj(e: &Element) -> Value {
             }
             ElementContent::CharacterData(cd) => {
                 m.insert("t".into(), Value::String("c".into()));
-                m.insert("v".into(), Value::String(encode(&cd.to_string())));
+                m.insert("v".into(), Value::String(encode(&val_text(&cd))));
             }
         }
         items.push(Value::Object(m));
